@@ -20,15 +20,21 @@ if os.path.exists('seeded/RESULTS.txt'):
     for l in open('seeded/RESULTS.txt'):
         p = l.split()
         if len(p) >= 3:
-            res[p[0]] = (p[2], ' '.join(p[3:]))
+            rest = p[3:]
+            chk = p[0].split('-')[0]
+            if rest and rest[0].startswith('['):
+                chk = rest[0].strip('[]')
+                rest = rest[1:]
+            res[p[0]] = (p[2], ' '.join(rest), chk)
 rows = []
 for d in sorted(glob.glob('seeded/*/meta.json')):
     m = json.load(open(d))
-    r = res.get(m['id'], ('not run', ''))
+    r = res.get(m['id'], ('not run', '', m['property']))
     sig = r[1].split(';')[0][:70]
     if not sig.startswith('C'):
         sig = ''
-    rows.append('| %s | %s | %s | %s |' % (m['id'], m['needs_to_manifest'].replace('|', '\\|'), r[0].lower(), ('`%s`' % sig.replace('|', '\\|')) if sig else ''))
+    verdict = r[0].lower() + ('' if r[2] == m['property'] else ' (by the %s check)' % r[2])
+    rows.append('| %s | %s | %s | %s |' % (m['id'], m['needs_to_manifest'].replace('|', '\\|'), verdict, ('`%s`' % sig.replace('|', '\\|')) if sig else ''))
 caught = sum(1 for r in res.values() if r[0] == 'CAUGHT')
 extra = open('seeded/NOTES.md').read() if os.path.exists('seeded/NOTES.md') else ''
 body = '''## 11. Sensitivity: which checks catch which seeded changes
@@ -36,8 +42,9 @@ body = '''## 11. Sensitivity: which checks catch which seeded changes
 Method. Fresh sub-agents were given **only** the text of one property and a scratch git worktree
 of /repo (nothing from /verif) and asked for changes that break the property while compiling and
 passing the existing suite, each with a demonstration that fails with the change and passes
-without it, preferring changes that need something specific to manifest. Three rounds of six
-agents; the second and third were told which ideas had been used before, and that the
+without it, preferring changes that need something specific to manifest. Five rounds of six
+agents (seven in the fifth, where C18 had one agent for the archive side and one for the asset
+parsers); from the second round on they were told which ideas had been used before, and that the
 `verif_sim` seam of /repo may be used by a demonstration (that is how short and interrupted I/O,
 directory order and I/O errors at a chosen call are demonstrated). I confirmed every change
 myself in a scratch worktree (`tools/verify_mutant.sh`: applies, existing suite green, demo fails
